@@ -82,6 +82,9 @@ def do_eval(ids, checks=None, stage="detection"):
                     t0 = time.time()
                     rc, out = sh(f"VERIF_REPO={wt} VERIF_OUT={outdir} ./run_check.sh {mod} {tier}", cwd=CHECKS_DIR, timeout=4 * 3600)
                     lines = [l[:300] for l in out.splitlines() if l.startswith(("VIOLATION", "[C", "  counterexample", "  inconclusive", "  non-repro"))]
+                    if rc == 1 and not any(l.startswith("VIOLATION property=") for l in out.splitlines()):
+                        rc = 2      # a crash of the check is not a verdict
+                    lines.sort(key=lambda l: not l.startswith(("VIOLATION", "[C")))
                     res[f"{c}:{tier}"] = {"exit": rc, "wall_s": round(time.time() - t0, 1), "summary": lines[:4]}
                     print(sid, c, tier, "exit", rc, f"{time.time() - t0:.0f}s", (lines[1][:200] if len(lines) > 1 else ""), flush=True)
                     if rc == 1:
